@@ -243,7 +243,7 @@ def c17(tier):
     exe = build('debug')
     wd = scratch('c17')
     tricky = ['"', 'a"b', '""', ': 1', '#3', 'slot #2', 'method #1 args:0 locals:0 0000-0001', 'class #1,#2', ' lead', 'trail ', '  ', 'null', 'true', '12', '-5',
-              '0: "x"', 'é世', 'a,b', "it's", '\\\\"', 'Entry: #0', 'Code:', '~ : ~', '//', '∅', '0000-∅']
+              '0: "x"', 'é世', 'a,b', 'tab\there', 'a\\tb', 'a\\nb', 'ctl\x01\x02', 'nul\x00byte', 'del\x7f', 'esc\x1b[0m', 'nel\x85', 'a\\\\tb', "it's", '\\\\"', 'Entry: #0', 'Code:', '~ : ~', '//', '∅', '0000-∅']
     progs = [{'name': 'tricky:%d' % i, 'text': unparse(Top([Pr(s.replace('\\', '\\\\').replace('"', '\\"') if not s.startswith('\\\\') else s)])), 'ast': None} for i, s in enumerate(tricky)]
     progs += pool.corpus() + pool.random_programs(tier_sizes(tier, 120, 3000), base_seed=seed() * 3571 + 4) + pool.construct_family(limit=tier_sizes(tier, 80, 1500))
     outs = compile_pool(exe, progs, wd, ['listing'], 'c17')
@@ -377,8 +377,9 @@ def c07(tier):
             v = vs[rec['id']]['verdict']
             counts[v] = counts.get(v, 0) + 1
             chk.traces += 1
-            if v == 'expected-tree-outside-parser-range':
+            if v == 'expected-tree-outside-parser-range' and not cases[rec['id']][0].startswith('corpus:'):
                 raise ToolError('C07: a generated tree is outside InParserRange: %s' % cases[rec['id']][0])
+            # (for corpus texts the expected tree is what the parser itself produced: a tree outside the documented range is a finding)
             if v != 'ok':
                 name, text, exp = cases[rec['id']]
                 chk.violation('%s: %s' % (name[:160], v), {'case': name, 'source': text[:3000], 'expected_ast': exp if len(json.dumps(exp)) < 6000 else 'large',
